@@ -305,3 +305,85 @@ Section PosSections.
                        let '(s2, e2) := psec_run s1 r in (s2, e1 ++ e2)
     end.
 End PosSections.
+
+(* ------------------------------------------------------------------ part 4: SEVERAL writers per bar, at the granularity of the code *)
+(** ProgressBar::{inc, dec, set_position} as the code has them (src/progress_bar.rs:243-249, 252-258,
+    295-301; src/state.rs AtomicPosition):
+        [QStore b w]            one atomic read-modify-write / store on the counter `pos` of bar b; no lock
+        (PAllow)                `pos.allow(now)`: loads and stores of the limiter's capacity / prev; with
+                                two writers they interleave arbitrarily, so its verdict is an ORACLE BIT of
+                                the call (every verdict sequence is covered); it does not touch the counter
+        [QBracket b None p]     only when the verdict is true: bar mutex; `tick_inner` reads `pos`
+                                atomically, renders and draws; [p] = the frame is painted (a second oracle
+                                bit: the refresh limiter of the draw target may refuse it); unlock
+    Calls that mutate under the lock (finish*: position := length, then a forced draw) are one
+    bracket with the store inside: [QBracket b (Some w) true]; tick / set_message / ... are
+    [QBracket b None p].  Brackets on one bar are totally ordered by its mutex, stores are atomic:
+    a section-level execution is a LIST of sections.  The machine below keeps, per bar, the history
+    of values the counter held (oldest first; the counter is its last element) and the log of
+    painted frames (bar, index of the shown value in that bar's history, shown value).  It is an
+    abstraction of Sys.v restricted to what clause 3 says about positions: [pos_store] (part 3)
+    writes [b_pos] exactly as [wr_apply] does (C02_pos_store_is_counter_write), a painted bracket
+    renders [frame_of] of the bar record with the counter value it read.  Tie to the source: reading
+    of progress_bar.rs / state.rs + the two-writers-per-bar stress oracle of c02.rs; the lock
+    footprint table has no event for the atomics. *)
+Inductive wr := WInc (d : N) | WDec (d : N) | WSet (p : N).
+Definition wr_apply (w : wr) (v : N) : N :=
+  match w with WInc d => wadd64 v d | WDec d => wsub64 v d | WSet p => p end.
+
+Inductive qstep :=
+| QStore (b : N) (w : wr)
+| QBracket (b : N) (w : option wr) (paints : bool).
+
+Record qst := mkq { q_hist : N -> list N; q_log : list (N * nat * N) }.
+Definition q_init (c0 : N -> N) : qst := mkq (fun b => [c0 b]) [].
+(** the counter of bar b now *)
+Definition q_cnt (st : qst) (b : N) : N := last (q_hist st b) 0.
+
+Definition q_store (st : qst) (b : N) (w : wr) : qst :=
+  mkq (fupd (q_hist st) b (q_hist st b ++ [wr_apply w (q_cnt st b)])) (q_log st).
+
+Definition q_step (st : qst) (x : qstep) : qst :=
+  match x with
+  | QStore b w => q_store st b w
+  | QBracket b ow paints =>
+      let st1 := match ow with Some w => q_store st b w | None => st end in
+      if paints
+      then mkq (q_hist st1) (q_log st1 ++ [(b, Nat.pred (length (q_hist st1 b)), q_cnt st1 b)])
+      else st1
+  end.
+Definition q_run (st : qst) (l : list qstep) : qst := fold_left q_step l st.
+
+(** "never older": every later frame of the same bar shows an index at least as large *)
+Fixpoint log_mono (log : list (N * nat * N)) : Prop :=
+  match log with
+  | [] => True
+  | e :: r => (forall e', In e' r -> fst (fst e') = fst (fst e) -> (snd (fst e) <= snd (fst e'))%nat) /\ log_mono r
+  end.
+
+(** what the last painted frame of bar b shows (index, value) *)
+Definition last_shown (log : list (N * nat * N)) (b : N) : option (nat * N) :=
+  fold_left (fun acc e => if N.eqb (fst (fst e)) b then Some (snd (fst e), snd e) else acc) log None.
+
+(** the section writes the counter of bar b *)
+Definition stores_on (b : N) (x : qstep) : bool :=
+  match x with
+  | QStore b' _ => N.eqb b' b
+  | QBracket b' (Some _) _ => N.eqb b' b
+  | QBracket _ None _ => false
+  end.
+
+(** public calls with their two oracle bits (verdict of the position limiter, paint verdict of the
+    draw target), and their sections *)
+Inductive qcall :=
+| QCPos (b : N) (w : wr)          (* inc / dec / set_position *)
+| QCDraw (b : N)                   (* tick, set_message, ...: one bracket, no counter write *)
+| QCFinish (b : N) (p : N).        (* finish*: position := p inside the bracket, forced draw *)
+Definition qcall_sections (c : qcall * bool * bool) : list qstep :=
+  let '(call, verdict, paints) := c in
+  match call with
+  | QCPos b w => QStore b w :: (if verdict then [QBracket b None paints] else [])
+  | QCDraw b => [QBracket b None paints]
+  | QCFinish b p => [QBracket b (Some (WSet p)) true]
+  end.
+Definition qthread_sections (t : list (qcall * bool * bool)) : list qstep := flat_map qcall_sections t.
